@@ -71,6 +71,7 @@ def emit_all(corp, sc):
             o = json.loads(line)
             o['pkgdir'] = os.path.join(jobs[o['id']]['dir'], corp[o['id']][0])
             o['text'] = corp[o['id']][1]
+            o.setdefault('name', corp[o['id']][0])
             res[o['id']] = o
     if any(r is None for r in res):
         raise RuntimeError('emission driver failed:\n' + out[-2000:])
